@@ -564,6 +564,14 @@ func oracleRelease(o *e2eOutcome, v vfn) {
 			}
 			if r.Gen >= 2 && !everTransmitted(o, r.Name, relHash) && otherVersionHeld(o, r.Name, relHash) {
 				fp = "released-after-restart-on-name-only-poll"
+			} else if otherVersionHeld(o, r.Name, relHash) && !completedAtReceiver(o, r.Name, relHash, lastPositivePoll(o, r.Name, r.VT)) {
+				// known pattern: the released version never became complete at the receiver
+				// (its record was started over by parts of another version arriving in
+				// between, or the sender counted its bytes wrongly), so the receiver never
+				// reached a verdict on it; the poll, which goes by NAME only, was answered
+				// for the other version of that name the receiver holds.  (A version that
+				// WAS completely received and is then answered wrongly is not this pattern.)
+				fp = "released-on-name-only-poll-for-version-incomplete-at-receiver"
 			}
 			v("C02", "validated-copy-exists-at-release", fp, fmt.Sprintf("%s of %s at %s (sender generation %d): content on disk md5 %s, cache entry hash %s, but the receiver holds no validated copy of the released version (final: %v, waiting: %v)", what, r.Name, r.VT, r.Gen, r.SrcMD5, r.CacheHash, r.HeldFinal, r.HeldWait))
 		}
@@ -593,6 +601,61 @@ func everTransmitted(o *e2eOutcome, name, hash string) bool {
 	return size >= 0 && covered(rs) >= size
 }
 
+// completedAtReceiver: did the receiver's record of (name, hash) ever cover the
+// whole file, i.e. did that version get as far as validation?  The record of a
+// name starts over whenever a part with another hash arrives.
+// lastPositivePoll: sequence number of the latest positive poll answer for the
+// name given before virtual time vt (the answer the release rests on); -1 if none
+func lastPositivePoll(o *e2eOutcome, name string, vt time.Duration) int {
+	seq := -1
+	for _, e := range o.events {
+		if e.Kind == "poll_code" && e.Name == name && e.VT <= vt && (e.A == int64(sts.ConfirmPassed) || e.A == int64(sts.ConfirmWaiting)) {
+			seq = e.Seq
+		}
+	}
+	return seq
+}
+
+// (only parts received before event number upTo count; upTo < 0: all)
+func completedAtReceiver(o *e2eOutcome, name, hash string, upTo int) bool {
+	// size announced with each received part (a growing file can be sent twice
+	// under one hash with two sizes; the receiver starts over then, too)
+	sizeOf := map[int]map[[2]int64]int64{}
+	for _, q := range o.reqs {
+		if q.Class != "data" {
+			continue
+		}
+		for _, p := range q.Parts {
+			if p.Name == name {
+				if sizeOf[q.ID] == nil {
+					sizeOf[q.ID] = map[[2]int64]int64{}
+				}
+				sizeOf[q.ID][[2]int64{p.Beg, p.End}] = p.Size
+			}
+		}
+	}
+	cur := ""
+	var rs []iv
+	for _, e := range o.events {
+		if e.Kind != "recv_part" || e.Name != name {
+			continue
+		}
+		if upTo >= 0 && e.Seq > upTo {
+			break
+		}
+		size := sizeOf[e.Req][[2]int64{e.A, e.B}]
+		key := fmt.Sprintf("%s/%d", e.S, size)
+		if key != cur {
+			cur, rs = key, nil
+		}
+		rs = append(rs, iv{e.A, e.B})
+		if e.S == hash && size > 0 && covered(rs) >= size {
+			return true
+		}
+	}
+	return false
+}
+
 // otherVersionHeld: the receiver delivered / logged another version of that name
 func otherVersionHeld(o *e2eOutcome, name, hash string) bool {
 	for _, d := range o.delivered {
@@ -611,20 +674,33 @@ func otherVersionHeld(o *e2eOutcome, name, hash string) bool {
 // versionsInterleaved: parts of two versions of the name reached the receiver (or
 // the sender's tracker) interleaved: A ... B ... A
 func versionsInterleaved(o *e2eOutcome, name string) bool {
-	var seq []string
+	// parts of an older version of the name (in the order the versions were written)
+	// received after parts of a newer one: both were in flight at the same time and
+	// the receiver, which keys everything by name, cannot tell which is the newer
+	idx := map[string]int{}
+	n := 0
 	for _, e := range o.events {
-		if e.Kind == "recv_part" && e.Name == name {
-			if len(seq) == 0 || seq[len(seq)-1] != e.S {
-				seq = append(seq, e.S)
+		if e.Kind == "write_source" && e.Name == name {
+			if _, ok := idx[e.S]; !ok {
+				n++
+				idx[e.S] = n
 			}
 		}
 	}
-	seen := map[string]bool{}
-	for _, h := range seq {
-		if seen[h] {
-			return true
+	high := 0
+	for _, e := range o.events {
+		if e.Kind == "recv_part" && e.Name == name {
+			i, ok := idx[e.S]
+			if !ok {
+				continue
+			}
+			if i < high {
+				return true
+			}
+			if i > high {
+				high = i
+			}
 		}
-		seen[h] = true
 	}
 	return false
 }
